@@ -24,7 +24,10 @@ THEOREMS = ["illFormed_undeclared_rejected", "illFormed_arity_rejected", "illFor
             "hidden_rebind_accepted", "aggBound_shadow_rejected", "aggBound_shadow_order", "aggBound_local_accepted",
             "branchingHeadMacro_rejected", "branchingDisjMacro_rejected", "branchingMacro_later_rejected", "emptyDisj_rejected", "emptyDisj_deep_rejected", "emptyDisj_in_macro_rejected", "aggBoundMissing_rejected",
             "aggBoundMissing_first_rejected", "sigMismatch_rejected",
-            "emptyMacro_accepted", "latticeTrailingComma_accepted", "emptyLattice_rejected"]
+            "emptyMacro_accepted", "latticeTrailingComma_accepted", "emptyLattice_rejected",
+            # re-declared relations (`dedup_all_keep_last_by`): the declaration-level classes speak about `Summary.effDecls`
+            "mem_effDecls_iff", "effDecls_sub_decls", "effDecls_eq_decls", "findDecl_effDecls", "illFormed_dsLattice_lastDecl_rejected",
+            "wDsLatticeAfterDup_rejected", "wDsLatticeReplaced_accepted", "wDsLatticeReplaced_not_illFormed", "twoDs_dup"]
 TRUSTED = ["Lean 4.33.0 kernel", "axioms: propext, Classical.choice, Quot.sound only (audited per theorem)",
            "statement: Props/C15.lean over the model Model/Check.lean (pipeline order of ascent_syntax.rs / ascent_hir.rs / ascent_mir.rs; "
            "no panic of ascent_codegen.rs is reachable); the model is tied to the real pipeline outcome by outcome on every generated program",
@@ -78,11 +81,14 @@ def build_streams(rng, tier):
         txt = G.text(p)
         cases.append({"id": cid, "kind": p["kind"], "text": txt, "summary": None if m.get("nosummary") else G.summary(p), "class": m["class"],
                       "variant": m["variant"], "pos": m["pos"], "expect": m["expect"], "faithful": m["faithful"], "alone": m["alone"],
-                      "rustc_only": m.get("rustc_only")})
+                      "rustc_only": m.get("rustc_only"), "redecl": len(G.replaced_decls(p))})
     bases = []
     for i in range(nb):
         kind = G.KINDS[i % 4]
         feats = {} if i % 8 else {"macros": True, "disj": True}
+        # quota: every third program re-declares one or two of its relations (i % 3 and the macro kind i % 4 are independent: all four macros get some);
+        # the others do so with chance 1/8
+        if i % 3 == 1: feats["redecl"] = 1 + (i // 3) % 2
         p = G.gen_program(rng.fork(f"p{i}"), kind, feats)
         bases.append(p)
         add(f"w{i}", p, G.mutant(p, "wellformed", "base", "-", expect="ok"))
@@ -206,8 +212,22 @@ def check(tier, replay=None):
     r.cov["per_macro_kind"] = dict(sorted(collections.Counter(c["kind"] for c in cases).items()))
     r.cov["per_position_kind"] = dict(sorted(collections.Counter(c["pos"] for c in cases).items()))
     r.cov["deferred_to_rustc_span_dependent"] = deferred
+    after = [c for c in cases if c["pos"] == "declaration/after-redeclaration"]
+    repl = [c for c in cases if c["pos"] == "declaration/replaced"]
+    r.cov["redeclared_relations"] = {
+        "base_programs_with_a_redeclared_relation": sum(1 for c in cases if c["class"] == "wellformed" and c["variant"] == "base" and c.get("redecl")),
+        "base_programs_with_a_redeclared_relation_per_macro": dict(sorted(collections.Counter(
+            c["kind"] for c in cases if c["class"] == "wellformed" and c["variant"] == "base" and c.get("redecl")).items())),
+        "replaced_declarations_in_base_programs": sum(c.get("redecl", 0) for c in cases if c["class"] == "wellformed" and c["variant"] == "base"),
+        "programs_with_a_redeclared_relation": sum(1 for c in cases if c.get("redecl")),
+        "forced_ds_on_lattice_after_redeclaration": len(after),
+        "forced_ds_on_lattice_after_redeclaration_per_macro": dict(sorted(collections.Counter(c["kind"] for c in after).items())),
+        "forced_ds_on_lattice_after_redeclaration_per_variant": dict(sorted(collections.Counter(c["variant"] for c in after).items())),
+        "accepted_variants_attribute_on_replaced_declaration": len(repl),
+        "accepted_variants_attribute_on_replaced_declaration_per_variant": dict(sorted(collections.Counter(c["variant"] for c in repl).items())),
+    }
     r.cov["rule"] = ("well-formed surface programs (relations, lattices, joins, conditions, generators, aggregation, negation, disjunctions, ?patterns, wildcards, multi-head "
-                     "rules, body and head macros, ds and program attributes, struct signatures) under the four macros and as ascent_source!; one violation planted at every "
+                     "rules, body and head macros, ds and program attributes, struct signatures, relations declared more than once) under the four macros and as ascent_source!; one violation planted at every "
                      "position (rule / disjunct / invoked macro body / head / aggregation / negation / declaration / attribute); two-violation programs for the pipeline order; "
                      "token-level corruptions")
     if cases:
@@ -270,6 +290,7 @@ def tie_b(r, rng, cases, real, listed, d, pick=None):
     good = [c for c in cases if c["class"] in ("wellformed",) and c["kind"] != "ascent_source"]
     pick += [dict(c, want="build") for c in good[:40]] + [dict(c, want="build") for c in cases if c["id"] == "k_f16"]
     pick += [dict(c, want="build") for c in cases if c["variant"] in ("private-macro-names", "private-name-in-clause-condition")][:8]
+    pick += [dict(c, want="build") for c in cases if c["pos"] == "declaration/replaced" and c["kind"] != "ascent_source"][:8]
     bad = [c for c in cases if c["expect"] == "err" and c["summary"] and c["kind"] != "ascent_source" and c["class"] not in ("malformed-tokens",)
            and T.classify(real.get(c["id"], "none")) != "hang"]        # (a hang is already a failure of tie A: do not let rustc run into it as well)
     by = collections.defaultdict(list)
